@@ -74,6 +74,16 @@ def gen_cases(tier, seed):
             "flag": FLAGS[0] if rng.random() < 0.55 else rng.choice(FLAGS), "recipient": rng.choice(["p2pkh", "p2sh", "segwit0", "segwit1", "pubkey", "raw"]),
             "change": rng.choice(["default", "default", "p2pkh", "segwit0"]), "m_n": rng.choice([[1, 1], [1, 2], [2, 2], [2, 3], [3, 3]]),
         }
+    # the same workload through the command line (argument parsing, flag mapping, key reading are part of what a user relies on)
+    for i in range(120 if q else 1500):
+        kind = KINDS[i % len(KINDS)]
+        if kind in ("p2pk-c", "p2pk-u", "multisig"):
+            kind = "p2wpkh" if i % 2 else "p2pkh-c"     # binary sender "addresses" do not survive as command-line arguments reliably
+        yield "send", {"via": "cli", "kind": kind, "signed": i % 5 != 0, "salt": rng.getrandbits(48), "net": NETS[i % 3], "n_utxo": rng.choice([1, 1, 2]),
+                       "vout_mode": rng.choice(["zero", "index", "random"]), "amount_mode": rng.choice(["plain", "hostile", "tiny"]),
+                       "fraction": rng.choice([1.0, 1.0, 0.5, 0.25]), "fee": rng.choice([1000, 0, 777]), "version": rng.choice([1, 2]), "locktime": rng.choice([0, 9]),
+                       "flag": rng.choice(FLAGS), "recipient": rng.choice(["p2pkh", "p2sh", "segwit0", "segwit1"]), "change": rng.choice(["default", "p2pkh", "segwit0"]),
+                       "m_n": rng.choice([[1, 1], [1, 2], [2, 2]])}
     # change exactly on / around the dust threshold and the fee (the two constants coincide only for the default fee)
     for j, (total, fee, f) in enumerate(_boundary_cases(rng, 80 if q else 800)):
         yield "send", {"kind": KINDS[j % len(KINDS)], "signed": j % 4 == 0, "salt": rng.getrandbits(48), "net": NETS[j % 3], "n_utxo": 1,
@@ -104,7 +114,7 @@ def _boundary_cases(rng, n):
 
 
 def required(tier):
-    return {"class.change_near_dust_or_fee_boundary": 40, "ground.signed_with_short_high_s": 4, "send.returned": 450, "send.signed_decided": 300, "send.unsigned_decided": 50, "inputs.verified": 400,
+    return {"class.change_near_dust_or_fee_boundary": 40, "send.via_cli": 80, "ground.signed_with_short_high_s": 4, "send.returned": 450, "send.signed_decided": 300, "send.unsigned_decided": 50, "inputs.verified": 400,
             "class.amount_hostile": 60, "class.vout_ne_index": 60, "class.multi_input": 100, "class.version2_or_locktime": 100,
             "class.recipient_raw": 40, "class.change_present": 100, "class.change_subdust": 3, "selfcheck.ok": 3,
             "kind.segwit.valid": 80, "kind.legacy.valid": 80}
@@ -289,8 +299,11 @@ def run_case(kind, params, ctx):
     brpc.rpc_method = fake_rpc
     try:
         try:
-            raw = btx.send_tx(snd["addr"], rcpt_addr, change_addr=change_addr, sender_keys=list(snd["wifs"]) if signed else [],
-                              sighash_flag=flag, send_fraction=f, miner_fee=fee, version=params["version"], locktime=params["locktime"], rpc_url="scripted")
+            if params.get("via") == "cli":
+                raw = _via_cli(ctx, snd, rcpt_addr, change_addr, signed, flag, f, fee, params, fake_rpc)
+            else:
+                raw = btx.send_tx(snd["addr"], rcpt_addr, change_addr=change_addr, sender_keys=list(snd["wifs"]) if signed else [],
+                                  sighash_flag=flag, send_fraction=f, miner_fee=fee, version=params["version"], locktime=params["locktime"], rpc_url="scripted")
         except ContractViolation as cv:
             if cv.prop == PROP:
                 raise
@@ -431,6 +444,36 @@ def run_case(kind, params, ctx):
     ctx.violation(f"sig-invalid/{family}/{'+'.join(causes) or 'unexplained'}",
                   f"sender {skind}, {n_in} inputs, {n_out} outputs, flag {flag:#x}, version {params['version']}, locktime {params['locktime']}, "
                   f"vouts {[u['vout'] for u in spent]}: inputs {[b[0] for b in bad]} invalid: {bad[0][1]}")
+
+
+class CliError(Exception):
+    pass
+
+
+def _via_cli(ctx, snd, rcpt_addr, change_addr, signed, flag, f, fee, params, fake_rpc):
+    """The same request through `bits send ...` (bits.__main__.main() in-process, stdin = WIF keys, stdout = hex tx)."""
+    import os
+    import tempfile
+    from . import c20
+    cfg = tempfile.mkdtemp(prefix="c16cli-")
+    try:
+        argv = ["--config-dir", cfg, "send", os.fsdecode(snd["addr"]), os.fsdecode(rcpt_addr)]
+        if change_addr is not None:
+            argv += ["--change-addr", os.fsdecode(change_addr)]
+        argv += ["--send-fraction", repr(f), "--miner-fee", str(fee), "--version", str(params["version"]), "--locktime", str(params["locktime"])]
+        if signed:
+            argv += ["--sighash", {1: "all", 2: "none", 3: "single"}[flag & 0x1F]] + (["--anyone-can-pay"] if flag & 0x80 else [])
+        r = c20.run_main(argv, b"\n".join(snd["wifs"]) + b"\n" if signed else b"", rpc=fake_rpc)
+    finally:
+        import shutil
+        shutil.rmtree(cfg, ignore_errors=True)
+    ctx.count("send.via_cli")
+    if r["exit"] or r["ret"] is not None:
+        raise CliError(f"bits send failed: {r['exit'] or r['ret']}")
+    try:
+        return bytes.fromhex(r["out"].decode().strip())
+    except Exception:
+        raise CliError(f"bits send printed {r['out'][:80]!r}")
 
 
 def _send_ground(ctx, params):
